@@ -26,6 +26,8 @@ pub enum Shape {
     RawThen,
     /// with_capacity at the boundaries; growth amortisation over 2^k pushes
     CapSpecial,
+    /// the vector value moved to every admissible offset of an aligned arena (C12)
+    Placement,
 }
 
 /// words per operation record in history mode
@@ -230,6 +232,7 @@ impl<C: Cfg> World<C> {
                 }
                 self.do_lazy(v, w, kind, j, depth, &consume, tr);
             }
+            OP_VIEWS => self.do_views(v, tr),
             OP_BULK_PUSH => {
                 let n = 1 + ch.pick(300) as usize;
                 self.do_bulk_push(v, n, tr);
@@ -675,6 +678,16 @@ pub fn run_body<C: Cfg>(spec: &Spec, shape: Shape, ch: &mut Ch, tr: &mut String,
             if !w.dead() {
                 w.step(ch, false, tr);
             }
+        }
+        Shape::Placement => {
+            let fi = ch.pick(nf) as usize;
+            let fl = flavours[fi];
+            let valign = std::mem::align_of::<V<C>>().max(1);
+            let n_off = (64 / valign).max(1) as u32;
+            let off_idx = ch.pick(n_off) as usize;
+            let len = ch.pick(4) as usize;
+            let _ = write!(tr, "[{}] ", C::NAME);
+            crate::ops_views::placement_case::<C>(&mut w, fl, off_idx, len, tr);
         }
         Shape::CapSpecial => {
             let fi = ch.pick(nf) as usize;
